@@ -977,6 +977,7 @@ check_pairwise(const Cfg& k)
         else
           {
             ++stats().excluded_known;
+            stats().count("excluded:C09:F5:QuadraticPrior::add_multiplication_with_approximate_Hessian vs H*input");
             // weaker documented facts that hold for any reading: accumulates, linear in beta, nothing for beta == 0
             if (k.beta == 0)
               VF_CHECK(vmax(from_vox(g, *out)) == 0., "approximate Hessian with penalisation factor 0 changed the output");
@@ -1193,7 +1194,10 @@ check_pls(const Cfg& k)
   stats().count("PLS gradient voxels compared", N - n_masked);
   stats().count("PLS gradient voxels excluded (known finding)", n_masked);
   if (n_masked)
-    ++stats().excluded_known;
+    {
+      ++stats().excluded_known;
+      stats().count("excluded:C09:F3:PLS compute_gradient at image border voxels"); // sub-case exclusion: same counter name as run_case uses
+    }
   const Vec gstir = stir_gradient(P, g, *xim);
   // the gradient is a difference of terms |q| <= 1: magnitude per voxel = beta * kappa * (number of terms) is the natural float scale
   Vec mag(gmag);
@@ -1470,8 +1474,10 @@ fixed_cases(int)
 }
 
 //! input classes excluded because of known findings (work/notes/C09_findings.md): a replayed case of such a class is
-//! neither pass nor fail.  F3 (PLS border voxels) and F5 (Quadratic approximate Hessian) are narrower than a case and are
-//! handled inside check().
+//! neither pass nor fail.  F3 (PLS border voxels) and F5 (Quadratic approximate Hessian) are narrower than a case (a
+//! signature here would reject EVERY PLS / Quadratic case): they are excluded inside check(), which records the counters
+//! "excluded:C09:F3:..." / "excluded:C09:F5:..." (the signatures listed in work/notes/C09_known_entries.json) and
+//! excluded_known; both are switched back on by VERIF_NO_EXCLUDE=1 or VERIF_C09_INCLUDE=3 / 5.
 std::string
 known_signature(const json& c)
 {
